@@ -114,6 +114,8 @@ Apply(l, a) ==
     [] a.op = "tail"          -> SubSeq(l, Len(l) - Min2(a.n, Len(l)) + 1, Len(l))
     [] a.op = "slice"         -> LET ix == SliceIdx(Len(l), a.lo, a.hi, a.step) IN [i \in DOMAIN ix |-> l[ix[i] + 1]]
     [] a.op = "copy"          -> l
+    [] a.op = "map_item"      -> l                                                   \* map(function returning a dict): a ListOfDicts of equal items
+    [] a.op = "map_key"       -> [i \in DOMAIN l |-> [v |-> IF Has(l[i], a.k) THEN l[i][a.k] ELSE None]]   \* map(function returning a value): a plain list
     [] a.op = "drop_na"       -> LET P(it) == \A k \in Range(a.keys) : Has(it, k) /\ it[k] # None IN SelSeq(l, P)
 
 (* ---------- declarative restatements used to check the model ---------- *)
